@@ -1,6 +1,6 @@
 """C20 — tulz::Thread runs its callable once, on a live copy, and reports completion (rules TH.1-TH.4)."""
 from facts import Node, strip_targs
-from symex import Closure, Exec, Ref, Sym
+from symex import Closure, Exec, Ref, Sym, Record
 from evdom import EvDomain, run_paths, _flatten
 import common
 
@@ -28,100 +28,132 @@ def run(facts, rep, tier):
     isfin = facts.fn(f'{TH}::isFinished')
     if isfin is None:
         rep.anchor_missing(f'{TH}::isFinished', 'not found'); return
-    state_fields = sorted({n.name for n in isfin.nodes() if n.is_field(cls=TH)})
+    def fields_read(fn, depth=0, seen=None):
+        seen = seen if seen is not None else set()
+        if fn.name in seen or depth > 3: return set()
+        seen.add(fn.name)
+        out = {n.name for n in fn.nodes() if n.is_field(cls=TH)}
+        for n in fn.nodes():
+            if n.k == 'call' and n.callee_in_root and (n.n('object') is None or n.n('object').k == 'this'):
+                for t_ in facts.resolve(n):
+                    if t_.d.get('class') == TH: out |= fields_read(t_, depth + 1, seen)
+        return out
+    state_fields = sorted(fields_read(isfin))
     if not state_fields:
         rep.anchor_missing(f'{TH}::isFinished', 'reads no field'); return
     rep.note(f'completion state field(s): {state_fields}')
 
     bodies = 0
+    auto_decls = {}           # decl id -> (name, type) of every variable with automatic storage in a start() function: by-value parameters, non-reference locals
     for f in starts:
-        ths = [n for n in f.nodes() if n.k == 'construct' and n.d.get('class') == 'std::thread']
-        label = strip_targs(f.name) + (f.name[len(strip_targs(f.name)):][:60] if False else '')
-        inst_label = f.name[:110]
-        if len(ths) != 1:
-            rep.violation('TH.2', f'{inst_label}: {len(ths)} std::thread constructions', f.shortloc(), 'start() must create exactly one thread', key=f'TH.2|threads|{f.gname}', fn=f.name)
-            continue
-        t = ths[0]
-        lam = next((a for a in t.ns('args') if a is not None and a.k == 'lambda'), None)
-        if lam is None:
-            rep.inconclusive('TH.1', inst_label, t.shortloc(), 'std::thread is not given a lambda: capture analysis does not apply'); continue
-        lf = facts.lambda_fn(lam)
-        if lf is None:
-            rep.anchor_missing('thread body', f'lambda body of {inst_label} not extracted'); continue
-        bodies += 1
-        caps = {c.get('decl'): c for c in lam.captures or [] if 'decl' in c}
-        # the callee object of the invocation inside the body
-        invoked = []
-        for n in lf.nodes():
-            if n.k == 'call' and (n.n('calleeexpr') is not None or (n.ck == 'op' and n.op == '()')):
-                callee = n.n('calleeexpr') if n.n('calleeexpr') is not None else (n.ns('args')[0] if n.ns('args') else None)
-                while callee is not None and callee.k in ('cast', 'unop') : callee = callee.n('sub')
-                while callee is not None and callee.k == 'call' and (callee.calleeq in ('std::forward', 'std::move')) and callee.ns('args'): callee = callee.ns('args')[0]
-                if callee is not None and callee.k == 'ref': invoked.append((n, callee))
-            elif n.k == 'call' and n.virtual and n.n('object') is not None and n.n('object').k == 'ref':
-                invoked.append((n, n.n('object')))
-        is_runnable = not f.d.get('instantiation')
-        # TH.1 captures
-        params = {p['decl']: p for p in f.d['params']}
-        for decl, c in caps.items():
-            if c['mode'] != 'ref': continue
-            is_param = decl in params
-            byval_auto = (is_param and not params[decl]['isref']) or (not is_param and c.get('dk') == 'local' and not c.get('isref'))
-            called = any(cal.decl == decl for _, cal in invoked)
-            if byval_auto:
-                rep.violation('TH.1', f'{inst_label}: captures `{c["var"]}` by reference', lam.shortloc(),
-                              f'`{c["var"]}` ({c.get("vartype")}) has automatic storage in start(): it is gone when start() returns, the new thread reads a dangling reference however late it is scheduled',
-                              key=f'TH.1|auto|{f.gname}|{c["var"]}', fn=f.name)
-            elif called:
-                rep.violation('TH.1', f'{inst_label}: the callable `{c["var"]}` is captured by reference', lam.shortloc(),
-                              f'the thread body invokes `{c["var"]}` through a reference to the caller\'s object ({c.get("vartype")}): a temporary closure or a caller local is destroyed before a late-scheduled thread runs; the thread must own a copy',
-                              key=f'TH.1|callable|{f.gname}|{c["var"]}', fn=f.name)
-            else:
-                rep.ok('TH.1', f'{inst_label}: `{c["var"]}` ({c.get("vartype")}) is a reference to a caller lvalue (argument)', lam.shortloc())
-        for n, cal in invoked:
-            c = caps.get(cal.decl)
-            if c is not None and c['mode'] in ('copy',) or (c is not None and c.get('initcapture')):
-                rep.ok('TH.1', f'{inst_label}: the invoked callable `{cal.name}` is owned by the closure ({"init-capture" if c.get("initcapture") else "by copy"})', lam.shortloc())
-        if not invoked:
-            rep.violation('TH.2', f'{inst_label}: the thread body invokes nothing', lf.shortloc(), 'the callable is never called', key=f'TH.2|nocall|{f.gname}', fn=f.name)
-            continue
-        # TH.2 / TH.3 body ordering on every path
-        ex = Exec(facts, EvDomain())
-        clo_paths = None
-        # evaluate the body as a function in isolation: captured variables are opaque symbols
-        dom = EvDomain(); ex = Exec(facts, dom)
-        clo = Closure(lam, lf, {c['decl']: ('val', Sym('cap:' + c['var'])) for c in lam.captures or [] if 'decl' in c})
-        for BP in ex.run_closure(clo, this_path=('this',)):
-            B = _flatten(BP)
-            calls = [e for e in B if e.kind in ('opaque', 'run')]
-            dels = [e for e in B if e.kind == 'delete']
-            fin = [e for e in B if e.kind == 'write' and e.obj in state_fields]
-            ok_once = len(calls) == 1
-            rep.check(ok_once, 'TH.2', f'{inst_label}: the callable is invoked exactly once in the thread body', calls[0].site if calls else lf.shortloc(),
-                      f'{len(calls)} invocations on a path of the thread body', key=f'TH.2|once|{f.gname}', fn=f.name)
-            ok_fin = bool(fin) and bool(calls) and all(B.index(x) > B.index(calls[-1]) for x in fin)
-            rep.check(ok_fin, 'TH.2', f'{inst_label}: completion state {state_fields} is written after the callable returned', fin[0].site if fin else lf.shortloc(),
-                      'the completion state is ' + ('never written by the thread body: isFinished() never becomes true' if not fin else 'written before the callable has returned: isFinished() is true while the callable still runs'),
-                      key=f'TH.2|order|{f.gname}', fn=f.name)
-            if is_runnable:
-                ok3 = len(calls) == 1 and calls[0].kind == 'run' and len(dels) == 1 and B.index(dels[0]) > B.index(calls[0]) and repr(dels[0].val) == repr(calls[0].val) \
-                    and (not fin or B.index(fin[0]) > B.index(dels[0]) or True)
-                rep.check(ok3, 'TH.3', 'start(Runnable*): run() once, then delete of the same object once', dels[0].site if dels else lf.shortloc(),
-                          f'{len(calls)} run() / {len(dels)} delete on a path of the thread body' + (', delete before run' if calls and dels and B.index(dels[0]) < B.index(calls[0]) else ''),
-                          key='TH.3|typestate', fn=f.name)
-        # nobody else writes the completion state after the thread exists
-        cfg = f.cfg
+        for p_ in f.d['params']:
+            if not p_.get('isref'): auto_decls[p_['decl']] = (p_['name'], p_.get('ctype'))
         for n in f.nodes():
-            w = None
-            if n.k == 'binop' and n.op in ('=', '|=', '&=') and n.n('lhs') is not None and n.n('lhs').is_field(cls=TH) and n.n('lhs').name in state_fields: w = n
-            if n.k == 'call' and n.ck in ('op', 'member') and (n.mclass or '').startswith(('std::atomic', 'std::__atomic_base')):
-                tgt = n.n('object') if n.n('object') is not None else (n.ns('args')[0] if n.ns('args') else None)
-                if tgt is not None and tgt.is_field(cls=TH) and tgt.name in state_fields and (n.calleeq or '').split('::')[-1] in ('operator=', 'store', 'exchange'): w = n
-            if w is None: continue
-            after = cfg.reaches(t, w) or not cfg.dominates(w, t)
-            rep.check(not after, 'TH.2', f'{inst_label}: start() writes the completion state only before the thread is created', w.shortloc(),
-                      f'`{w.text()[:60]}` is executed after (or not always before) the std::thread construction at {t.shortloc()}: it races with the body\'s own write and can overwrite "finished", isFinished() then never becomes true',
-                      key=f'TH.2|ownerwrite|{f.gname}', fn=f.name)
+            if n.k == 'decl':
+                for v in n.vars:
+                    if not v.get('isref'): auto_decls[v['decl']] = (v['name'], v.get('ctype'))
+    for f in starts:
+        inst_label = f.name[:110]
+        is_runnable = not f.d.get('instantiation')
+        res = run_paths(facts, f, EvDomain())
+        for P, E in res:
+            if P.end not in ('exit', 'return'): continue
+            ths = [e for e in E if e.kind == 'thread']
+            if len(ths) != 1:
+                rep.violation('TH.2', f'{inst_label}: {len(ths)} std::thread constructions on a path', f.shortloc(), 'start() must create exactly one thread', key=f'TH.2|threads|{f.gname}', fn=f.name)
+                continue
+            t = ths[0]; ti = E.index(t)
+            body = t.val
+            # --- the created thread ends up in m_thread
+            stored = [e for e in E[ti:] if e.kind == 'call' and e.obj == 'm_thread' and e.name.split('::')[-1] in ('operator=', 'swap')]
+            if stored: rep.ok('TH.2', f'{inst_label}: the created thread is stored in m_thread', stored[0].site)
+            else: rep.violation('TH.2', f'{inst_label}: the created thread is stored in m_thread', t.site, 'the std::thread is not stored in m_thread: join() cannot wait for it', key=f'TH.2|store|{f.gname}', fn=f.name)
+            # --- nobody else writes the completion state once the thread exists
+            for e in E[ti:]:
+                if e.kind == 'write' and e.name == 'field' and e.obj in state_fields:
+                    rep.violation('TH.2', f'{inst_label}: start() writes the completion state only before the thread is created', e.site,
+                                  f'the completion state is written after the std::thread construction at {t.site}: it races with the body\'s own write and can overwrite "finished", isFinished() then never becomes true',
+                                  key=f'TH.2|ownerwrite|{f.gname}', fn=f.name)
+            # --- the body
+            ex = Exec(facts, EvDomain())
+            lam = None; caps = {}
+            if isinstance(body, Closure) and body.fn is not None:
+                lam = body.lam if hasattr(body, 'lam') else None
+                body_paths = ex.run_closure(body, this_path=('this',))
+                body_site = body.fn.shortloc()
+            elif isinstance(body, Record):
+                a0 = t.node.ns('args')[0] if t.node is not None and t.node.ns('args') else None
+                ty = (a0.type or '') if a0 is not None else ''
+                ops = [g for g in facts.fns if g.d.get('classfull') == ty and g.qname.endswith('::operator()')] or [g for g in facts.fns if g.d.get('class') == ty and g.qname.endswith('::operator()')]
+                if len(ops) != 1:
+                    rep.inconclusive('TH.2', inst_label, t.site, f'std::thread is given an object of type {ty}: its call operator was not found'); continue
+                from symex import State
+                st0 = State()
+                for k_, v_ in body.f.items(): st0.store[('f', ('functor', k_))] = v_
+                body_paths = ex.run(ops[0], this_path=('functor',), state=st0)
+                body_site = ops[0].shortloc()
+                # TH.1 for a function object: what it invokes must be a by-value member, what it refers to must not be automatic
+                for k_, v_ in body.f.items():
+                    if isinstance(v_, Ref) and v_.loc[0] == 'l' and v_.loc[-1] in auto_decls:
+                        nm, ty_ = auto_decls[v_.loc[-1]]
+                        rep.violation('TH.1', f'{inst_label}: member `{k_}` of the thread\'s function object refers to `{nm}`', t.site,
+                                      f'`{nm}` ({ty_}) has automatic storage in start(): it is gone when start() returns, the new thread reads a dangling reference however late it is scheduled',
+                                      key=f'TH.1|auto|{f.gname}|{nm}', fn=f.name)
+                    else: rep.ok('TH.1', f'{inst_label}: member `{k_}` of the thread\'s function object does not refer to automatic storage of start()', t.site)
+            else:
+                rep.inconclusive('TH.1', inst_label, t.site, f'std::thread is given {body!r}: neither a lambda nor a function object the analysis can follow'); continue
+            bodies += 1
+            # TH.1 for a lambda: captures
+            if isinstance(body, Closure):
+                n_ref = 0
+                for dk, (mode, v) in body.env.items():
+                    if mode != 'ref': continue
+                    n_ref += 1
+                    loc = v.loc if isinstance(v, Ref) else v
+                    # follow references: a by-reference capture of a reference variable designates what that variable refers to
+                    seen_ = 0
+                    while isinstance(loc, tuple) and loc and loc[0] == 'l' and isinstance(P.store.get(loc), Ref) and seen_ < 5:
+                        loc = P.store[loc].loc; seen_ += 1
+                    dcl = loc[-1] if isinstance(loc, tuple) and loc and loc[0] == 'l' else None
+                    var = next((c['var'] for c in (body.lam.captures if getattr(body, 'lam', None) is not None else []) or [] if c.get('decl') == dk), dk)
+                    if dcl in auto_decls:
+                        nm, ty_ = auto_decls[dcl]
+                        rep.violation('TH.1', f'{inst_label}: captures `{var}` by reference', body_site,
+                                      f'`{nm}` ({ty_}) has automatic storage in start(): it is gone when start() returns, the new thread reads a dangling reference however late it is scheduled',
+                                      key=f'TH.1|auto|{f.gname}|{nm}', fn=f.name)
+                    else:
+                        rep.ok('TH.1', f'{inst_label}: `{var}` is a reference to a caller lvalue (argument)', body_site)
+            for BP in body_paths:
+                B = _flatten(BP)
+                calls = [e for e in B if e.kind in ('opaque', 'run')]
+                dels = [e for e in B if e.kind == 'delete']
+                fin = [e for e in B if e.kind == 'write' and e.name == 'field' and e.obj in state_fields]
+                if not calls:
+                    rep.violation('TH.2', f'{inst_label}: the thread body invokes nothing', body_site, 'the callable is never called', key=f'TH.2|nocall|{f.gname}', fn=f.name); continue
+                # TH.1: the invoked callable lives in the closure / function object
+                if isinstance(body, Closure):
+                    for c_ in calls:
+                        if c_.kind != 'opaque': continue
+                        m_ = next(((mode, v) for dk, (mode, v) in body.env.items() if any(c.get('decl') == dk and c.get('var') == c_.obj for c in (getattr(body, 'lam', None).captures if getattr(body, 'lam', None) is not None else []) or [])), None)
+                        if m_ is None: continue
+                        if m_[0] == 'ref':
+                            rep.violation('TH.1', f'{inst_label}: the callable `{c_.obj}` is captured by reference', body_site,
+                                          f'the thread body invokes `{c_.obj}` through a reference to the caller\'s object: a temporary closure or a caller local is destroyed before a late-scheduled thread runs; the thread must own a copy',
+                                          key=f'TH.1|callable|{f.gname}|{c_.obj}', fn=f.name)
+                        else:
+                            rep.ok('TH.1', f'{inst_label}: the invoked callable `{c_.obj}` is owned by the closure', body_site)
+                ok_once = len(calls) == 1
+                rep.check(ok_once, 'TH.2', f'{inst_label}: the callable is invoked exactly once in the thread body', calls[0].site if calls else body_site,
+                          f'{len(calls)} invocations on a path of the thread body', key=f'TH.2|once|{f.gname}', fn=f.name)
+                ok_fin = bool(fin) and bool(calls) and all(B.index(x) > B.index(calls[-1]) for x in fin)
+                rep.check(ok_fin, 'TH.2', f'{inst_label}: completion state {state_fields} is written after the callable returned', fin[0].site if fin else body_site,
+                          'the completion state is ' + ('never written by the thread body: isFinished() never becomes true' if not fin else 'written before the callable has returned: isFinished() is true while the callable still runs'),
+                          key=f'TH.2|order|{f.gname}', fn=f.name)
+                if is_runnable:
+                    ok3 = len(calls) == 1 and calls[0].kind == 'run' and len(dels) == 1 and B.index(dels[0]) > B.index(calls[0]) and repr(dels[0].val) == repr(calls[0].val)
+                    rep.check(ok3, 'TH.3', 'start(Runnable*): run() once, then delete of the same object once', dels[0].site if dels else body_site,
+                              f'{len(calls)} run() / {len(dels)} delete on a path of the thread body' + (', delete before run' if calls and dels and B.index(dels[0]) < B.index(calls[0]) else ''),
+                              key='TH.3|typestate', fn=f.name)
     rep.floor('thread bodies analysed', bodies, 9)
     # isFinished / join
     rets = [n for n in isfin.nodes() if n.k == 'return']
@@ -131,9 +163,6 @@ def run(facts, rep, tier):
     else:
         joins = [n for n in jn.nodes() if n.is_call('std::thread::join') and n.n('object') is not None and n.n('object').is_field('m_thread', TH)]
         rep.check(len(joins) == 1, 'TH.2', 'join() joins m_thread', jn.shortloc(), 'join() does not join the stored thread', key='TH.2|join')
-    for f in starts:
-        asg = [n for n in f.nodes() if n.k == 'call' and n.ck == 'op' and n.op == '=' and n.ns('args') and n.ns('args')[0] is not None and n.ns('args')[0].is_field('m_thread', TH)]
-        rep.check(len(asg) == 1, 'TH.2', f'{f.name[:100]}: the created thread is stored in m_thread', f.shortloc(), 'the std::thread is not stored in m_thread: join() cannot wait for it', key=f'TH.2|store|{f.gname}', fn=f.name)
     # TH.4
     for sf in state_fields:
         fld = facts.field(TH, sf)
